@@ -142,6 +142,12 @@ class Client:
         """Widening hook applied to states flowing back to a loop head."""
         return [state]
 
+    def after_finally(self, returning, after):
+        """state with which a ``return`` proceeds once the finally block ran (``returning`` is the state at the return
+        statement, ``after`` the one at the end of the finally block): clients that keep the returned value in the state
+        carry it over."""
+        return after
+
     def loop_leave(self, st, state) -> Iterable[Any]:
         """Applied to every state that leaves a loop normally (test false, exhausted, break)."""
         return [state]
@@ -466,7 +472,7 @@ class Flow:
                 fin.brk |= o.brk
                 fin.cont |= o.cont
                 for s2 in o.fall:
-                    fin.ret.add((s2, r))
+                    fin.ret.add((c.after_finally(s, s2), r))
             for s, e in res.exc:
                 o = self._block(st.finalbody, {s})
                 fin.ret |= o.ret
